@@ -10,6 +10,7 @@
   * hunks addressed to a set `{}`, a multiset `[]` or a keyed member `{"k":v}` (C08).
 -/
 import JdSpec.CanonEq
+import JdModel.WF
 
 namespace Jd.Spec
 open Jd
